@@ -16,7 +16,7 @@ import (
 )
 
 func init() {
-	fw.Register(&fw.Check{ID: "C19", Level: "model_checking", Run: runC19, QuickBudget: 240, ThoroughBudget: 1200})
+	fw.Register(&fw.Check{ID: "C19", Level: "model_checking", Run: runC19, QuickBudget: 600, ThoroughBudget: 1200})
 }
 
 // blobOf builds a blob with the storer's own object constructor (also used by C39).
